@@ -87,7 +87,7 @@ def run(ctx):
 
     hb, hlog = ctx.build_harness("c11")
     meta, sj = {}, []
-    model_bad, prop_bad, run_bad = [], [], []
+    model_bad, prop_bad, run_bad, mitm_bad = [], [], [], []
     if hb is None:
         ob_failed.append("harness does not build against the source tree: " + hlog[-800:])
     else:
@@ -121,6 +121,14 @@ def run(ctx):
                 for shard in meta["run_shards"]:
                     for i in (ctx.parse_nlist((rres.get(shard) or {}).get("P")) or []):
                         run_bad.append(rj[i] if i < len(rj) else {"index": i})
+            mj = load_jsonl(os.path.join(ctx.work, "mcases.jsonl"))
+            if meta.get("mitm_shards"):
+                mres = ctx.coq_eval_shards(GROUP, ctx.work, meta["mitm_shards"])
+                for shard, lg in mres["_errors"]:
+                    ob_failed.append("mitm shard %s did not evaluate: %s" % (shard, lg[-600:]))
+                for shard in meta["mitm_shards"]:
+                    for i in (ctx.parse_nlist((mres.get(shard) or {}).get("P")) or []):
+                        mitm_bad.append(mj[i] if i < len(mj) else {"index": i})
             for e in (meta.get("errors") or []):
                 ob_failed.append("harness scenario could not run: " + e)
             for e in (meta.get("stuck") or []):
@@ -192,6 +200,12 @@ def run(ctx):
                        "rejected_label_index": rej, "events": [label_text(e) for e in sj[i]["events"]]},
                       False, "%d recorded run(s) are not traces of the LTS although the trace predicates hold; smallest: %s"
                       % (len(model_bad), describe(i, rej, [])))
+    for mr in mitm_bad[:3]:
+        sc = mr.get("scenario", {})
+        ctx.violation("late-request-%s" % sc.get("kind", "?"),
+                      {"kind": "mitm", "scenario": sc, "observed": {k: v for k, v in mr.items() if k != "scenario"}},
+                      True, "intercepting proxy, request first sent after shutdown began (%s): observed %s (T11_no_new_work)"
+                      % (sc.get("name"), json.dumps({k: v for k, v in mr.items() if k != "scenario"})))
     for rr in run_bad[:3]:
         sc = rr.get("scenario", {})
         ctx.violation("run-sequence-%s" % "-".join(sc.get("name", "?").split("/")[2:]),
@@ -232,7 +246,8 @@ def run(ctx):
         "coqchk": chk,
         "table_obligations": obs,
         "unchecked_obligations": ob_failed,
-        "evaluations": int(meta.get("cases", 0)) + int(meta.get("run_cases", 0)),
+        "evaluations": int(meta.get("cases", 0)) + int(meta.get("run_cases", 0)) + int(meta.get("mitm_cases", 0)),
+        "late_request_mitm_cases": int(meta.get("mitm_cases", 0)),
         "run_sequence_cases": int(meta.get("run_cases", 0)),
         "distinct_nontrivial": int(meta.get("distinct_traces", 0)),
         "rule": "scenarios: every single-connection phase (fresh, partial head, upstream round trip held, response write held, "
@@ -242,7 +257,7 @@ def run(ctx):
                 "in different phases; non-trivial/distinct = distinct recorded label sequences",
         "traces_validated_against_impl": int(meta.get("cases", 0)) - len(model_bad),
         "model_mismatches": len(model_bad),
-        "property_failures_on_impl": len(prop_bad) + len(run_bad),
+        "property_failures_on_impl": len(prop_bad) + len(run_bad) + len(mitm_bad),
         "events_recorded": int(meta.get("events", 0)),
         "distribution": {k: meta.get(k) for k in ("by_mode", "by_phase", "by_after", "conns_per_scenario", "vanished_clients",
                                                    "late_dials", "shutdown_returned_nil", "shutdown_returned_ctx_error",
